@@ -340,6 +340,24 @@ theorem graph_state_cut_entropy_is_adjacency_rank (m n k : Nat) (adj : Nat → N
   rw [hget] at h
   exact ⟨h.1, h.2.2.1⟩
 
+/-- **the emitters suffice for every cut**: the number of emitters the solver allocates is at least the entanglement entropy
+    of every cut of the target (and equals the largest one, `solver_allocates_max_entropy`); with
+    `height_is_entanglement_entropy`, entry `k` is the entropy of the reduced state right of `k` -/
+theorem solver_emitters_bound_cut_entropies (target : STab) (s : Solver.St) (h : Solver.solve target = .ok s) :
+    ∃ l, target.heightFuncList = .ok l ∧ ∀ k, k < l.length → l.getD k 0 ≤ (s.ne : ℤ) := by
+  obtain ⟨h0, hs, hl, hne⟩ := solver_allocates_max_entropy target s h
+  refine ⟨h0 :: hs, hl, fun k hk => ?_⟩
+  obtain ⟨i1, i2⟩ := le_foldl_max hs h0
+  have hmem : (h0 :: hs).getD k 0 ∈ h0 :: hs := by
+    rw [List.getD_eq_getElem?_getD, List.getElem?_eq_getElem hk]
+    exact List.getElem_mem hk
+  have hle : (h0 :: hs).getD k 0 ≤ hs.foldl max h0 := by
+    rcases List.mem_cons.mp hmem with e | e
+    · rw [e]; exact i1
+    · exact i2 _ e
+  rw [hne]
+  exact le_trans hle (Int.self_le_toNat _)
+
 /-- `lin3` (linear cluster state, re-gauged): `height_func_list = [1, 1, 0]`, so the reduced state of qubits 1,2 has purity
     `2^{-1}` and that of qubit 2 alone purity `2^{-1}` — the hypotheses of `height_is_entanglement_entropy` are met -/
 example : Matrix.trace (ptraceList (leftSites 0) (rho (2 + (leftSites 0).length) lin3)
